@@ -839,7 +839,7 @@ theorem gen_sites_clean : Gen.C20.sitesClean.all (·.2) = true := by decide
 
 theorem gen_sites_names : Gen.C20.sitesClean.map (·.1) =
     ["str_to_int", "str_to_float", "str_to_float_plain", "str_to_float_with_missing", "list_column", "list_column_gz_chunks",
-     "GenotypeRowEncoding.encode", "PhasedGenotypeRowEncoding.encode", "genotype_column", "merge_intervals"] := by decide
+     "single_list_column_no_final_newline", "single_float_list_column_gz_chunks", "GenotypeRowEncoding.encode", "PhasedGenotypeRowEncoding.encode", "genotype_column", "merge_intervals"] := by decide
 
 /-! ### non-vacuity: the programs do run, and do write (into their own buffers) -/
 
